@@ -2,6 +2,11 @@ package main
 
 // C16: timestamps show the record's instant in the configured zone and layout.
 //
+// Besides Go's renderings of the candidates, every correspondence case carries the instant itself and its own
+// zone (offset, abbreviation): the Coq model of Go's layout language renders it and must give the OBSERVED text
+// byte for byte; the model's reader is compared with the instant (where the round-trip theorem applies) and with
+// Go's own time.Parse.
+//
 // Every cell emits ONE record through Entry.WriteThru with an explicit instant on a fresh
 // logger with recording writers, cuts the timestamp out of the record and checks it against
 // the DIRECT ORACLE (the statement written out in Go, independent of the Coq model):
@@ -720,7 +725,7 @@ func runC16(r *Run) {
 	defer resetProcess(snap)
 	r.ShardSize = 250
 	r.Coq("Require Import Verif.Model.Base Verif.Model.Decision Verif.Model.Mode Verif.Corr.C16.", "case", "ok")
-	r.Rule = "cells = instant (own-zone and UTC year in 0..9999, any nanosecond part; zones: UTC, fixed offsets incl. +05:45, -03:30, +14:00, -12:00 and offsets with seconds, named IANA zones when the zoneinfo is available) x 8 date/time/microseconds combinations x local-time flag x 3 UTC states (never set, SetUTCMode(true), SetUTCMode(false)) x 8 layout settings (never set + 7 custom incl. RFC3339Nano, Kitchen, millisecond digits, RFC1123Z numeric zone, StampMicro, zone with seconds) x 3 formats, each one record through Entry.WriteThru with the instant; plus argument-list forms of SetUTCMode/SetTimeFormat (no argument, several, empty strings) through Set*, New(With*) and With* children; quick: the whole factor grid once with a different instant per cell, thorough: the whole grid for every instant; direct oracle = zone and layout per the statement, text == instant.In(zone).Format(layout), framing, time.Parse gives the instant's wall-clock fields (and zone offset) to the layout's precision and the absolute instant where the layout has date, time and zone; non-trivial = non-UTC zone with a sub-second part; distinct by (instant, zone, flags, utc arguments, layout arguments, form, format)"
+	r.Rule = "cells = instant (own-zone and UTC year in 0..9999, any nanosecond part; zones: UTC, fixed offsets incl. +05:45, -03:30, +14:00, -12:00 and offsets with seconds, named IANA zones when the zoneinfo is available) x 8 date/time/microseconds combinations x local-time flag x 3 UTC states (never set, SetUTCMode(true), SetUTCMode(false)) x 8 layout settings (never set + 7 custom incl. RFC3339Nano, Kitchen, millisecond digits, RFC1123Z numeric zone, StampMicro, zone with seconds) x 3 formats, each one record through Entry.WriteThru with the instant; plus argument-list forms of SetUTCMode/SetTimeFormat (no argument, several, empty strings) through Set*, New(With*) and With* children; quick: the whole factor grid once with a different instant per cell, thorough: the whole grid for every instant; direct oracle = zone and layout per the statement, text == instant.In(zone).Format(layout), framing, time.Parse gives the instant's wall-clock fields (and zone offset) to the layout's precision and the absolute instant where the layout has date, time and zone; plus an element sweep (31 layouts covering every element of Go's layout language, on boundary instants - both ends of the year range, both sides of the epoch, leap days, missing leap days of 1900/2100, every end of month - and random ones); correspondence: the model of Go's layout language (Model/TimeFmt.v) renders the instant with the layout and in the zone the regenerated decisions select and must give the observed text byte for byte (route model+candidate; candidate-only where the instant is outside the model's domain), the specification-side reader must return the instant where the round-trip theorem's hypotheses hold and agree with time.Parse wherever that reads the text; layouts with a zone abbreviation are rendered and compared but parse-back is not asked of them; non-trivial = non-UTC zone with a sub-second part; distinct by (instant, zone, flags, utc arguments, layout arguments, form, format)"
 	zones := c16Zones(r)
 	nInst := r.N(48, 100)
 	var insts []c16Instant
@@ -817,6 +822,8 @@ func runC16(r *Run) {
 		cellNo = 0
 		c16One(r, x, c, "argument-forms")
 	}
+	r.Extra["routes"] = map[string]int{"model+candidate": r.Dist["route=model+candidate"], "candidate-only": r.Dist["route=candidate-only"],
+		"reader-vs-instant(round-trip-domain)": r.Dist["roundtrip-theorem-domain=in"], "reader-vs-time.Parse": r.Dist["go-parse=read"]}
 }
 
 func replayC16(r *Run, file string) {
